@@ -98,6 +98,10 @@ def d2(rep, f, c):
     for p in region_paths(b, 0):
         if p.end[0] != 'return':
             continue
+        # a branch on a value that is a constant on this path (an arm that yields `true` / `false` into a flag tested later)
+        # has only one executable side
+        if any(e[1][0] == 'c' and isinstance(e[2], bool) and bool(e[1][1]) != e[2] for e in p.conds()):
+            continue
         st = [e for e in p.conds() if e[1][0] == 'variant' and e[1][1] == ('deref', SELF)]
         if len(st) != 1:
             continue
